@@ -125,7 +125,11 @@ def run_case(
     if async_bodies is None:
         async_bodies = runner == "async"
     if graphs is None:
-        graphs = build.build_program(program, env, async_bodies=async_bodies)
+        try:
+            graphs = build.build_program(program, env, async_bodies=async_bodies)
+        except Exception as e:  # construction of a generated program failed
+            return {"status": "build-error", "values": [], "error": canon_error(e, env), "raised": True, "pause": None,
+                    "warnings": 0, "calls": [], "detail": f"{type(e).__name__}: {e}"[:300]}
     g = graphs[root if root is not None else len(graphs) - 1]
     vals = {k: py_val(v) for k, v in (values or [])}
     kwargs: dict[str, Any] = {}
